@@ -57,6 +57,7 @@ LEVELS = {
 }
 
 DEFAULT_BUDGET = {"quick": 30.0, "thorough": 420.0}
+PROP_BUDGET = {("C18", "quick"): 18.0}
 
 
 def world(name):
@@ -94,9 +95,28 @@ def work(args):
             "digests": {}, "nondeterministic": [], "samples": [], "nontrivial_runs": 0,
             "errors": [],
         }
+        pre = {}
+        wmod = world(wname)
+        if hasattr(wmod, "execute_chunk"):
+            # worlds that amortise child interpreters over a chunk
+            try:
+                plans = []
+                for i in indices:
+                    seed = run_seed(master, prop, wname, i)
+                    pl = wmod.generate(rng_for(seed), (prop,), tier)
+                    pl["run_seed"] = seed
+                    pl["index"] = i
+                    plans.append(pl)
+                ctxs = wmod.execute_chunk(plans, (prop,))
+                pre = dict((i, (pl, cx)) for i, pl, cx in zip(indices, plans, ctxs))
+            except Exception as e:
+                import traceback
+                agg["errors"].append({"index": indices[0], "exc": repr(e)[:300],
+                                      "tb": traceback.format_exc()[-1500:]})
+                indices = []
         for n, i in enumerate(indices):
             try:
-                plan, ctx = _one(wname, prop, master, i, tier)
+                plan, ctx = pre[i] if i in pre else _one(wname, prop, master, i, tier)
             except Exception as e:  # a crash of the harness itself, not a verdict
                 import traceback
                 agg["errors"].append({"index": i, "exc": repr(e)[:300],
@@ -209,7 +229,7 @@ def run_check(prop, tier, budget=None, max_runs=None, workers=None, quiet=False)
     master = boot.master_seed()
     if budget is None:
         b = os.environ.get("VERIF_BUDGET_S")
-        budget = float(b) if b else DEFAULT_BUDGET[tier]
+        budget = float(b) if b else PROP_BUDGET.get((prop, tier), DEFAULT_BUDGET[tier])
     if workers is None:
         workers = int(os.environ.get("VERIF_WORKERS", "0")) or min(16, os.cpu_count() or 1)
     plan_worlds = PROP_WORLDS[prop]
